@@ -2,9 +2,8 @@
    (children first), the selector parser's duplicate-selector removal and the
    declaration-level duplicate removal are applied in every style rule, and the
    linker's cross-file duplicate removal runs over the top level.  Every winner
-   is preserved, for every sheet on which the "@layer a { @layer b {..} }" =>
-   "@layer a.b {..}" collapse does not fire (that rewrite renumbers the declared
-   layers and is still only tied by correspondence and the oracle). *)
+   is preserved, layer collapsing ("@layer a { @layer b {..} }" => "@layer a.b {..}")
+   included. *)
 From V Require Import Common.Base C12.Cascade C12.CascadeProofs C12.Mangle C12.MangleProofs C12.MergeProofs C12.MangleRulesProofs.
 
 Section Tree.
@@ -51,61 +50,40 @@ Section Tree.
     change (best_spec w [] e) with (@None Z). cbn [omax]. reflexivity.
   Qed.
 
-  (* ---- "the layer collapse does not fire anywhere while mangling" ---- *)
-  Fixpoint nc (encl : list Z) (r : rule) : Prop :=
-    match r with
-    | RMedia q b =>
-      (fix go l := match l with [] => True | x :: t => nc (encl ++ [q]) x /\ go t end) b /\
-      Forall no_collapse (map (mangle_tree (encl ++ [q])) b)
-    | RCond _ _ b =>
-      (fix go l := match l with [] => True | x :: t => nc encl x /\ go t end) b /\
-      Forall no_collapse (map (mangle_tree encl) b)
-    | RLayer _ _ b =>
-      (fix go l := match l with [] => True | x :: t => nc encl x /\ go t end) b /\
-      Forall no_collapse (map (mangle_tree encl) b)
-    | _ => True
-    end.
-
-  Lemma nc_go encl b : (fix go l := match l with [] => True | x :: t => nc encl x /\ go t end) b -> Forall (nc encl) b.
-  Proof. induction b as [|x b IH]; intros H; constructor; [apply H | apply IH; apply H]. Qed.
-
   Lemma tree_equiv : forall r encl conds layer,
-    (forall q, In q encl -> In q conds) -> nc encl r ->
+    (forall q, In q encl -> In q conds) ->
     equiv w (flatten conds layer (mangle_tree encl r)) (flatten conds layer r).
   Proof.
     induction r as [s d|q body IH|t p body IH|n aid body IH|k i|i|i] using rule_ind';
-      intros encl conds layer Hencl Hnc; cbn [mangle_tree flatten]; try apply equiv_refl.
+      intros encl conds layer Hencl; cbn [mangle_tree flatten]; try apply equiv_refl.
     - (* style rule *)
       eapply equiv_trans; [|apply sel_dedupe_equiv].
       intros pre post e p. apply dedupe_decls_keeps_winner_all.
     - (* @media *)
-      cbn [nc] in Hnc. destruct Hnc as [Hgo Hcol]. apply nc_go in Hgo.
       assert (Hencl' : forall x, In x (encl ++ [q]) -> In x (conds ++ [q])).
       { intros x Hx. apply in_app_or in Hx as [Hx|Hx]; apply in_or_app; [left; apply Hencl; exact Hx | right; exact Hx]. }
       eapply equiv_trans.
       + intros pre post e p.
-        apply (mangle_rules_keeps_winner_all w (conds ++ [q]) layer (encl ++ [q]) Hencl' Hsafe Hdead _ false Hcol).
+        apply (mangle_rules_keeps_winner_all w (conds ++ [q]) layer (encl ++ [q]) Hencl' Hsafe Hdead _ false).
       + unfold flatten_list. rewrite flat_map_concat_map, map_map, <- flat_map_concat_map.
         apply (equiv_flat_map (fun x => flatten (conds ++ [q]) layer (mangle_tree (encl ++ [q]) x))).
-        rewrite Forall_forall in IH, Hgo. apply Forall_forall. intros r Hr. apply IH; auto.
+        rewrite Forall_forall in IH. apply Forall_forall. intros r Hr. apply IH; auto.
     - (* @supports / @container *)
-      cbn [nc] in Hnc. destruct Hnc as [Hgo Hcol]. apply nc_go in Hgo.
       assert (Hencl' : forall x, In x encl -> In x (conds ++ [p])) by (intros x Hx; apply in_or_app; left; apply Hencl; exact Hx).
       eapply equiv_trans.
       + intros pre post e pr.
-        apply (mangle_rules_keeps_winner_all w (conds ++ [p]) layer encl Hencl' Hsafe Hdead _ false Hcol).
+        apply (mangle_rules_keeps_winner_all w (conds ++ [p]) layer encl Hencl' Hsafe Hdead _ false).
       + unfold flatten_list. rewrite flat_map_concat_map, map_map, <- flat_map_concat_map.
         apply (equiv_flat_map (fun x => flatten (conds ++ [p]) layer (mangle_tree encl x))).
-        rewrite Forall_forall in IH, Hgo. apply Forall_forall. intros r Hr. apply IH; auto.
+        rewrite Forall_forall in IH. apply Forall_forall. intros r Hr. apply IH; auto.
     - (* @layer *)
-      cbn [nc] in Hnc. destruct Hnc as [Hgo Hcol]. apply nc_go in Hgo.
       assert (Hbody : forall l', equiv w (flat_map (flatten conds l') (mangle_rules encl (map (mangle_tree encl) body) false))
                                         (flat_map (flatten conds l') body)).
       { intros l'. eapply equiv_trans.
-        - intros pre post e pr. apply (mangle_rules_keeps_winner_all w conds l' encl Hencl Hsafe Hdead _ false Hcol).
+        - intros pre post e pr. apply (mangle_rules_keeps_winner_all w conds l' encl Hencl Hsafe Hdead _ false).
         - unfold flatten_list. rewrite flat_map_concat_map, map_map, <- flat_map_concat_map.
           apply (equiv_flat_map (fun x => flatten conds l' (mangle_tree encl x))).
-          rewrite Forall_forall in IH, Hgo. apply Forall_forall. intros r Hr. apply IH; auto. }
+          rewrite Forall_forall in IH. apply Forall_forall. intros r Hr. apply IH; auto. }
       destruct n as [|n1 [|n2 ns]].
       + apply (equiv_app [_] [_]); [apply equiv_refl | apply Hbody].
       + apply (equiv_app [_] [_]); [apply equiv_refl | apply Hbody].
@@ -114,17 +92,16 @@ Section Tree.
 
   (* the parser's pass over the whole sheet followed by the linker's duplicate removal *)
   Theorem mangle_sheet_keeps_winner_all : forall rules,
-    Forall (nc []) rules -> Forall no_collapse (map (mangle_tree []) rules) ->
     forall e p, winner w (flatten_list [] [] (mangle_sheet rules)) e p = winner w (flatten_list [] [] rules) e p.
   Proof.
-    intros rules Hnc Hcol e p. unfold mangle_sheet.
+    intros rules e p. unfold mangle_sheet.
     assert (H : equiv w (flatten_list [] [] (remove_dead (mangle_rules [] (map (mangle_tree []) rules) true))) (flatten_list [] [] rules)).
     { eapply equiv_trans; [intros pre post e' p'; apply (dedupe_keeps_winner_all w Hdead)|].
       eapply equiv_trans.
-      - intros pre post e' p'. apply (mangle_rules_keeps_winner_all w [] [] [] ltac:(intros q []) Hsafe Hdead _ true Hcol).
+      - intros pre post e' p'. apply (mangle_rules_keeps_winner_all w [] [] [] ltac:(intros q []) Hsafe Hdead _ true).
       - unfold flatten_list. rewrite flat_map_concat_map, map_map, <- flat_map_concat_map.
         apply (equiv_flat_map (fun x => flatten [] [] (mangle_tree [] x))).
-        rewrite Forall_forall in Hnc. apply Forall_forall. intros r Hr. apply tree_equiv; [intros q [] | apply Hnc; exact Hr]. }
+        apply Forall_forall. intros r Hr. apply tree_equiv. intros q []. }
     specialize (H [] [] e p). cbn [app] in H. rewrite !app_nil_r in H. exact H.
   Qed.
 End Tree.
